@@ -759,6 +759,16 @@ pub fn anchors() -> Vec<Ty> {
         vars.push(var(Named, vec![prim(U16), fvec(prim(U8), L::U8)]));
         v.push(senum("AEnum258", TagTy::U16, vars, false, false, Some(1)));
     }
+    // an over-aligned zero-sized field at an unaligned position, followed by less aligned fields only
+    v.push(senum(
+        "AEnumZstOver",
+        TagTy::U8,
+        vec![var(Unit, vec![]), var(Named, vec![prim(U8), Ty::Array(b(prim(U32)), 0), fvec(prim(U8), L::U8)]), var(Tuple, vec![prim(U8), Ty::Array(b(prim(U64)), 0), prim(U8), Ty::FlatString(L::U8)])],
+        false,
+        false,
+        Some(0),
+    ));
+    v.push(sstruct("AStructZstOver", vec![prim(U8), Ty::Array(b(prim(U32)), 0), prim(U8), fvec(prim(U8), L::U8)], false, false, true));
     // a zero-sized field between a less aligned and a more aligned one (struct, enum variant, aligned ZST)
     v.push(sstruct("AZstMid", vec![prim(U8), Ty::Unit, prim(U32), fvec(prim(U8), L::U8)], false, false, true));
     v.push(sstruct("AZstMid2", vec![prim(U8), Ty::Array(b(prim(U64)), 0), prim(U16), Ty::FlatString(L::U8)], false, false, true));
